@@ -916,7 +916,7 @@ func runC19(e *Env) error {
 		"(all encoded lengths, case-mapping oddities, every kind of invalid sequence); lists, []int, []string, [n]T arrays, map[string]T of length 0–6; " +
 		"slice start/length ∈ [−8,8] ∪ {omitted, null} ∪ int64 extremes and non-int argument types; separators of length 0–2; numbers = decimals m/10^k " +
 		"incl. every tie, negatives, ±2^53. A case is non-trivial when its input is not null; distinct by (filter, value, args)."
-	steps := []func(*Env) error{f19regressions, f19unicodeFacts, f19strings, f19slices, f19lists, f19joinSplit, f19defaults, f19mergeKeys, f19numbers, f19templates, f19siblings}
+	steps := []func(*Env) error{f19regressions, f19unicodeFacts, f19strings, f19slices, f19lists, c19typedContainers, f19joinSplit, f19defaults, f19mergeKeys, f19numbers, f19templates, f19siblings}
 	for _, s := range steps {
 		if err := s(e); err != nil {
 			return err
